@@ -2,11 +2,11 @@ package rules
 
 import (
 	"fmt"
-	"os"
 	"go/ast"
 	"go/constant"
 	"go/token"
 	"go/types"
+	"os"
 	"sort"
 	"strings"
 
@@ -335,11 +335,11 @@ func isRingRecv(fn *types.Func) bool {
 
 var ndRequire = map[string]byte{
 	"NTT": 'C', "NTTLazy": 'C', "INTT": 'N', "INTTLazy": 'N',
-	"Automorphism":                         'C',
-	"AutomorphismNTT":                      'N',
-	"AutomorphismNTTWithIndex":             'N',
-	"AutomorphismNTTWithIndexThenAddLazy":  'N',
-	"AutomorphismNTTWithIndexThenAdd":      'N',
+	"Automorphism":                        'C',
+	"AutomorphismNTT":                     'N',
+	"AutomorphismNTTWithIndex":            'N',
+	"AutomorphismNTTWithIndexThenAddLazy": 'N',
+	"AutomorphismNTTWithIndexThenAdd":     'N',
 }
 
 // ndExempt: sites reported by the rule that were confirmed unreachable by reading, one line of reason each.
